@@ -14,7 +14,8 @@ from harness.C03 import mk_collection, S
 COMMON, CORE = "ragc-common", "ragc-core"
 PATH = b"/sym/hist.agc"
 SAMPLES = [b"s0", b"s1", b"s2"]
-OPS = ["list_samples", "list_contigs", "get_contig_length", "get_contig_segments_desc", "get_contig", "get_sample", "get_all_segments", "get_group_statistics"]
+OPS = ["list_samples", "list_contigs", "get_contig_length", "get_contig_segments_desc", "get_contig", "get_sample", "get_all_segments", "get_group_statistics",
+       "get_reference_segment"]
 
 
 def same(e, a, b):
@@ -90,6 +91,9 @@ class History(Instance):
             return e.call_fn(CORE, f"Decompressor::{op}", [h, s()])
         if op in ("get_contig_length", "get_contig_segments_desc", "get_contig"):
             return e.call_fn(CORE, f"Decompressor::{op}", [h, s(), c()])
+        if op == "get_reference_segment":
+            gid = {b"s0": 16, b"s2": 3}.get(sample, 9999)       # LZ group without a stream in this archive, raw group, unknown group
+            return e.call_fn(CORE, "Decompressor::get_reference_segment", [h, Int(32, 0, gid)])
         return e.call_fn(CORE, f"Decompressor::{op}", [h])
 
     def path(self, e):
@@ -108,7 +112,7 @@ class History(Instance):
             e.inputs["history"] = hist
             got = self.query(e, hc, op, sample, contig)
             fresh = self.query(e, self.open(e), op, sample, contig)
-            takes_name = op not in ("list_samples", "get_all_segments", "get_group_statistics")
+            takes_name = op not in ("list_samples", "get_all_segments", "get_group_statistics", "get_reference_segment")
             if arg == 2 and takes_name:
                 e.witness("unknown_name")
                 e.prove(isinstance(got, Agg) and got.ty == "Result" and got.variant == 1, "hist:unknown_not_error", f"{op} on an unknown name did not return an error value")
